@@ -81,6 +81,8 @@ D3_KEY = "J2Plastic|kinematics=seth hill|virgin-state|nonzero-energy-or-nan"
 TIE_KEY = "eigen_sym33_unit|batched|branch-decision-tie"
 BATCH = 256
 MAX_RECORDS_PER_KEY = 10
+J2_EVOLVED_YIELD = 0.02          # yield strength / E of the J2 models in the evolved-state exploration
+YIELD_SWITCH_BAND = 1e-6         # |trial Mises - flow stress| / Y0 below which a probe is 'on the yield switch'
 
 # (model, option label, kind, cancellation class, relative compile weight)
 OPTIONS = [
@@ -252,6 +254,24 @@ class Model:
         raise KeyError(m)
 
 
+    # -- evolved internal states: constants and the pre-load action alphabet of the E-BFS (C08 only) ------
+    def constants_evolved(self, i):
+        """-> (p, dt, M, actions): as constants(i) (J2: a yield strength that the pre-loads exceed), and the pre-load
+        actions [(label, target displacement gradient, step size of the real compute_state_new)]."""
+        from mc.ref import material_ref as R
+        p, dt, M = self.constants(i)
+        if self.model == "J2Plastic":
+            p = p.copy()
+            p[2] = J2_EVOLVED_YIELD * p[0]
+            mu, _ = R.lame(p[0], p[1])
+            ey = p[2] / (2.0 * mu)                      # yield strain in uniaxial strain (Mises stress = 2 mu e)
+            return p, dt, M, [(l, H, dt) for l, H in R.preload_targets_j2(ey)]
+        tau = p[3] if self.model == "HyperViscoelastic" else p[5]
+        acts = [("%s@dt/tau=%s" % (l, rl), H, r * tau) for l, H in R.preload_targets_visco()
+                for rl, r in R.PRELOAD_DT_RATIOS]
+        return p, dt, M, acts
+
+
 class Programs:
     """The two program shapes (energy alone, value_and_grad) of one model in both execution modes."""
 
@@ -265,15 +285,21 @@ class Programs:
         self.vgB = jax.jit(jax.vmap(vg, (0, 0, None, None)))
 
     @staticmethod
-    def _chunks(fB, H, s0, dt, p, nout):
-        """fB over H (n,3,3) in padded chunks of BATCH; returns list of arrays (n, ...) or raises."""
+    def _chunks(fB, H, s0, dt, p, nout, pad=None):
+        """fB over H (n,3,3) in padded chunks of BATCH; returns list of arrays (n, ...) or raises.  s0 is one internal
+        state for all rows, or (n, nstate) one state per row (then `pad` = the virgin state fills the padding rows)."""
         n = H.shape[0]
         outs = [[] for _ in range(nout)]
-        S = onp.tile(s0, (BATCH, 1))
+        s0 = onp.asarray(s0, dtype=float)
+        per_row = s0.ndim == 2
+        S = onp.tile(pad if per_row else s0, (BATCH, 1))
         for a in range(0, n, BATCH):
             blk = H[a:a + BATCH]
             Hc = onp.zeros((BATCH, 3, 3))
             Hc[:blk.shape[0]] = blk
+            if per_row:
+                S = onp.tile(pad, (BATCH, 1))
+                S[:blk.shape[0]] = s0[a:a + BATCH]
             r = fB(Hc, S, dt, p)
             r = r if isinstance(r, tuple) else (r,)
             for k in range(nout):
@@ -291,6 +317,22 @@ class Programs:
         W, P = [], []
         for h in H:
             w, g = self.vg1(h, s0, dt, p)
+            W.append(float(w))
+            P.append(onp.asarray(g, dtype=float))
+        return onp.array(W), onp.stack(P)
+
+    # -- the same two program shapes with one internal state per row (evolved states) -----------------
+    def energies_at(self, mode, H, S, dt, p):
+        if mode == "batched":
+            return self._chunks(self.wB, H, S, dt, p, 1, pad=self.mdl.s0)[0]
+        return onp.array([float(self.w1(h, s, dt, p)) for h, s in zip(H, S)])
+
+    def energies_and_stresses_at(self, mode, H, S, dt, p):
+        if mode == "batched":
+            return self._chunks(self.vgB, H, S, dt, p, 2, pad=self.mdl.s0)
+        W, P = [], []
+        for h, s in zip(H, S):
+            w, g = self.vg1(h, s, dt, p)
             W.append(float(w))
             P.append(onp.asarray(g, dtype=float))
         return onp.array(W), onp.stack(P)
@@ -519,10 +561,249 @@ def _run_option(model, opt, kind, cancel, tier, seed, rec):
                     rec.case(cid, nontrivial=nontriv, outcome=outcome, steps=2, sample=samp)
                 rec.branch("deformation:%s:%s" % (kind_d, cls[k]))
 
+    # ---- the same objectivity / Kirchhoff clauses at EVOLVED internal states -----------------------------------
+    if mdl.has_state:
+        if rec.__dict__.get("_c08_ordinary", {}).get(mdl.name, 0):
+            rec.branch("evolved states skipped: the virgin-state product of %s already has an ordinary violation" % mdl.name)
+        else:
+            _run_evolved(mdl, prog, cancel, tier, seed, rec)
 
-def _report(rec, mdl, mode, cid, cls, gap, sig, single_ok, detail):
-    """Execution-mode protocol; returns the outcome label."""
-    detail = dict(detail, relative_gap_of_C=float(gap), stretch_class=cls, single_call_passes=single_ok)
+
+def _depth(tier):
+    return 2 if tier == "quick" else 3
+
+
+def _explore(mdl, upd1, acts, p, maxd, ml, rec):
+    """E-BFS on the REAL compute_state_new from the virgin state (single compiled calls, as C10: nothing of D11 can leak
+    into the states), all action histories up to depth maxd, successors de-duplicated on the internal state rounded to 1e-10.
+    Returns [(history label, state)] of the distinct non-virgin states, in discovery order."""
+    from mc.ref import material_ref as R
+
+    def canon(x):
+        return tuple(onp.rint(x / R.CANON_STATE).astype(onp.int64).tolist())
+    s0 = mdl.s0
+    seen = {canon(s0)}
+    rec.state(repr((mdl.name, ml) + canon(s0)))
+    frontier = [("", s0)]
+    found = []
+    for depth in range(1, maxd + 1):
+        nxt = []
+        for hl, st in frontier:
+            for al, Ht, dtp in acts:
+                lab = al if not hl else hl + ">" + al
+                try:
+                    s1 = onp.asarray(upd1(Ht, st, dtp, p), dtype=float).reshape(-1)
+                except Exception as e:  # noqa
+                    _violation(rec, "%s|update|%s" % (mdl.name, _libkey(e)), "model=%s;mod=%s;hist=%s" % (mdl.name, ml, lab),
+                               {"error": repr(e)[:400], "dispGrad": Ht, "state": st, "dt": dtp, "constants": p})
+                    continue
+                rec.transition()
+                if s1.shape != s0.shape or not onp.all(onp.isfinite(s1)):
+                    rec.branch("bfs:non-finite state dropped (judged by C09 / C11)")
+                    continue
+                rec.branch("bfs:pre-load step %s" % ("changed the internal state (flow)" if onp.abs(s1 - st).max() > 1e-10
+                                                     else "left the internal state unchanged"))
+                k = canon(s1)
+                if k in seen:
+                    rec.branch("bfs:dedup-merged")
+                    continue
+                seen.add(k)
+                rec.state(repr((mdl.name, ml) + k))
+                rec.depth(depth)
+                found.append((lab, s1))
+                nxt.append((lab, s1))
+        frontier = nxt
+    return found
+
+
+def _run_evolved(mdl, prog, cancel, tier, seed, rec):
+    """W(QF; state) = W(F; state) and symmetric Kirchhoff stress at every internal state reached by the E-BFS, both execution
+    modes.  The right-rotation clause W(FQ) = W(F) is NOT demanded here: an internal state that lives in the reference
+    frame legitimately breaks it."""
+    import jax
+    from mc.ref import material_ref as R
+    from mc.core import stable_hash
+    model, opt = mdl.model, mdl.opt
+    upd1 = jax.jit(mdl.update)
+    probes = R.probe_deformations(tier, seed)
+    rots = R.rotations(seed)
+    nD, nQ = len(probes), len(rots)
+    per = 1 + nQ
+    F = onp.stack([f for _, _, f in probes])
+    Q = onp.stack([q for _, q in rots])
+    Fall = onp.concatenate([F[:, None], onp.einsum("qij,fjk->fqik", Q, F)], axis=1)            # (nD, per, 3, 3): F, QF
+    infoF = R.stretch_info(F)
+    normF = R.fro(F)
+    j2ref = None
+    if model == "J2Plastic":
+        from mc.ref.j2_ref import J2Ref
+
+    for i, (ml, _, _) in enumerate(R.MODULI):
+        p, dt, M, acts = mdl.constants_evolved(i)
+        states = _explore(mdl, upd1, acts, p, _depth(tier), ml, rec)
+        rec.notes["evolved states:%s:%s" % (mdl.name, ml)] = len(states)
+        if not states:
+            rec.branch("evolved: no state other than the virgin one was reached (%s)" % mdl.name)
+            continue
+        nS = len(states)
+        S = onp.stack([st for _, st in states])
+        how, X = R.state_parts(model, opt, S)                                             # (nS, nb, 3, 3)
+        # ---- measured classes (reference side, from the inputs only) ------------------------------------------
+        einfo = R.elastic_info(F[None], how, X[:, None])                                  # (nS, nD)
+        gapE, gap2E = einfo["gap"], einfo["gap2"]
+        noncoax = R.noncoaxiality(F[None], how, X[:, None])                               # (nS, nD)
+        moved = onp.abs(S - mdl.s0[None]).max(axis=1)                                     # (nS,)
+        if how == "multiplicative":
+            strain_scale = infoF["logmax"][None] + einfo["logmax"]
+        else:
+            strain_scale = infoF["logmax"][None] + onp.abs(X).max(axis=(-3, -2, -1))[:, None]
+        c_abs = onp.ones((nS, nD)) if cancel == "invariant" else strain_scale + 1e-16
+        eig_term = onp.where((gapE <= 1e-6) & mdl.eigen_based, TAU_EIG * einfo["ratio"] ** 2 * (einfo["logmax"] + 1e-16), 0.0)
+        Hrows = onp.broadcast_to((Fall - R.I3)[None], (nS, nD, per, 3, 3))
+        Srows = onp.broadcast_to(S[:, None, None, :], (nS, nD, per, S.shape[1]))
+        excluded = onp.zeros((nS, nD), dtype=bool)
+        regime = onp.full((nS, nD), "relaxing", dtype=object)
+        if model == "J2Plastic":
+            kin = {"kinematics=large deformations": "large", "kinematics=seth hill": "seth hill"}[opt]
+            j2ref = J2Ref(p[0], p[1], p[2], "linear", {"H": p[3]}, kin=kin)
+            with onp.errstate(all="ignore"):
+                mis = j2ref.measures(Hrows, Srows)["mises"]                               # (nS, nD, per)
+            f = (mis - j2ref.Y(S[:, 0])[:, None, None] - 1e-10 * p[2]) / p[2]             # the library's yield test / Y0
+            excluded = (~onp.all(onp.isfinite(f), axis=-1) | (onp.abs(f).min(axis=-1) <= YIELD_SWITCH_BAND)
+                        | ((f.min(axis=-1) < 0.0) & (f.max(axis=-1) > 0.0)))
+            regime = onp.where(f[..., 0] > 0.0, "yielding", "elastic").astype(object)
+            rec.track_max("evolved|J2 probes: largest trial Mises stress / current flow stress",
+                          float((mis[..., 0] / j2ref.Y(S[:, 0])[:, None]).max()))
+            rec.notes["evolved J2 probes excluded at the yield switch:%s:%s" % (mdl.name, ml)] = int(excluded.sum())
+            rec.branch("evolved: J2 probes excluded, F and QF within 1e-6 Y0 of / on different sides of the yield switch",
+                       int(excluded.sum()))
+            rec.branch("evolved: J2 probes judged", int((~excluded).sum()))
+
+        # ---- run the real energy: all rotated states; value_and_grad at the base states ---------------------------
+        Hflat, Sflat = Hrows.reshape(-1, 3, 3), Srows.reshape(-1, S.shape[1])
+        Hbase, Sbase = Hrows[:, :, 0].reshape(-1, 3, 3), Srows[:, :, 0].reshape(-1, S.shape[1])
+        res = {}
+        for mode in ("single", "batched"):
+            try:
+                Wm = prog.energies_at(mode, Hflat, Sflat, dt, p).reshape(nS, nD, per)
+                Wb, Pb = prog.energies_and_stresses_at(mode, Hbase, Sbase, dt, p)
+                res[mode] = (Wm, Wb.reshape(nS, nD), Pb.reshape(nS, nD, 3, 3))
+            except Exception as e:  # noqa   (library raised on admissible input; no per-case attribution in a batch)
+                _violation(rec, "%s|%s|%s|%s" % (model, opt, mode, _libkey(e)),
+                           "model=%s;mod=%s;state=evolved;mode=%s" % (mdl.name, ml, mode), {"error": repr(e)[:600]})
+                res[mode] = None
+
+        # ---- judge ---------------------------------------------------------------------------------------------------
+        judged = {}
+        for mode in ("single", "batched"):
+            if res[mode] is None:
+                continue
+            Wm, Wb, Pb = res[mode]
+            W0 = Wm[..., 0]
+            tolW = TAU_REL * onp.abs(W0) + TAU_ABS * M * c_abs + M * eig_term
+            with onp.errstate(all="ignore"):
+                dL = onp.abs(Wm[..., 1:] - W0[..., None])
+                Kt = Pb @ onp.swapaxes(F, -1, -2)[None]
+                asym = R.fro(Kt - onp.swapaxes(Kt, -1, -2))
+                tolK = TAU_REL * R.fro(Pb) * normF[None] + (TAU_ABS + eig_term) * M * normF[None] ** 2
+                dvg = onp.abs(Wb - W0)
+            okL = dL <= tolW[..., None]             # False for NaN
+            okK = (asym <= tolK) & (dvg <= tolW)
+            judged[mode] = {"Wm": Wm, "Wb": Wb, "Pb": Pb, "W0": W0, "tolW": tolW, "dL": dL, "okL": okL, "asym": asym,
+                            "tolK": tolK, "okK": okK, "dvg": dvg}
+            # calibration numbers of the passing, judged cases (vectorised)
+            live = ~excluded
+            rep = gapE <= 1e-6
+            for rc, sel in (("distinct", live & ~rep), ("repeated", live & rep)):
+                mL = sel[..., None] & okL
+                if mL.any():
+                    rec.track_max("evolved|invariance|%s|%s|dW/tolerance" % (mode, rc),
+                                  float((dL / tolW[..., None])[mL].max()))
+                    with onp.errstate(all="ignore"):
+                        rel = dL / onp.abs(W0)[..., None]
+                    big = mL & (W0 > 1e-2 * M)[..., None]
+                    if big.any():
+                        rec.track_max("evolved|invariance|%s|%s|dW/|W| (W > 1e-2 M)" % (mode, rc), float(rel[big].max()))
+                    rec.track_max("evolved|invariance|%s|%s|%s|dW/(M c)" % (mode, rc, cancel),
+                                  float((dL / (M * c_abs)[..., None])[mL].max()))
+                mK = sel & okK
+                if mK.any():
+                    rec.track_max("evolved|kirchhoff|%s|%s|asymmetry/tolerance" % (mode, rc), float((asym / tolK)[mK].max()))
+                    rec.track_max("evolved|kirchhoff|%s|%s|asymmetry/(|P||F| + M|F|^2)" % (mode, rc),
+                                  float((asym / (R.fro(Pb) * normF[None] + M * normF[None] ** 2))[mK].max()))
+                    rec.track_max("evolved|programs|%s|%s||W(value_and_grad) - W(energy)|/tolerance" % (mode, rc),
+                                  float((dvg / tolW)[mK].max()))
+
+        def eig_tensors(a, k, q):
+            out = []
+            for nm, G in (("F", F[k]),) + ((("QF", Q[q] @ F[k]),) if q is not None else ()):
+                Ce = R.elastic_info(G, how, X[a])["Ce"]
+                out += [("Ce[branch %d](%s)" % (b, nm), Ce[b]) for b in range(Ce.shape[0])]
+            return out
+
+        for mode in ("single", "batched"):
+            if mode not in judged:
+                continue
+            J = judged[mode]
+            sj = judged.get("single")
+            for a, (sl, st) in enumerate(states):
+                for k, (dl, kind_d, _) in enumerate(probes):
+                    if excluded[a, k]:
+                        continue
+                    clsE = R.stretch_class(gapE[a, k], gap2E[a, k])
+                    coax = "non-coaxial" if noncoax[a, k] > 1e-6 else "coaxial"
+                    nontriv = bool(moved[a] > 1e-10 and noncoax[a, k] > 1e-6)
+                    label = "evolved:%s:%s:%s" % (clsE, coax, regime[a, k])
+                    base = "model=%s;mod=%s;state=%s;F=%s" % (mdl.name, ml, sl, dl)
+                    # -- Kirchhoff stress / base state --
+                    cid = "%s;Q=-;mode=%s" % (base, mode)
+                    if rec.want(cid):
+                        if J["okK"][a, k]:
+                            outcome = "ok:kirchhoff:" + label
+                        else:
+                            fin = onp.isfinite(J["asym"][a, k]) and onp.isfinite(J["dvg"][a, k])
+                            sig = "nan" if not fin else ("kirchhoff-unsymmetric" if not J["asym"][a, k] <= J["tolK"][a, k]
+                                                         else "energy-differs-between-programs")
+                            outcome = _report(rec, mdl, mode, cid, clsE, gapE[a, k], sig,
+                                              single_ok=(None if sj is None else bool(sj["okK"][a, k])),
+                                              detail={"F": F[k], "constants": p, "dt": dt, "state": st, "state_history": sl,
+                                                      "stress": J["Pb"][a, k], "kirchhoff_asymmetry": J["asym"][a, k],
+                                                      "tolerance": J["tolK"][a, k], "W_value_and_grad": J["Wb"][a, k],
+                                                      "W_energy_program": J["W0"][a, k], "noncoaxiality": noncoax[a, k]},
+                                              tensors=lambda a=a, k=k: eig_tensors(a, k, None))
+                        rec.branch("mode:" + mode)
+                        rec.case(cid, nontrivial=nontriv, outcome=outcome, steps=1)
+                    # -- superposed rotations (left only) --
+                    okrow = J["okL"][a, k]
+                    for q in range(nQ):
+                        cid = "%s;Q=%s;mode=%s" % (base, rots[q][0], mode)
+                        if not rec.want(cid):
+                            continue
+                        if okrow[q]:
+                            outcome = "ok:" + label
+                        else:
+                            sig = "nan" if not onp.isfinite(J["dL"][a, k, q]) else "not-objective(QF)"
+                            outcome = _report(rec, mdl, mode, cid, clsE, gapE[a, k], sig,
+                                              single_ok=(None if sj is None else bool(sj["okL"][a, k, q])),
+                                              detail={"F": F[k], "Q": Q[q], "constants": p, "dt": dt, "state": st,
+                                                      "state_history": sl, "W(F)": J["W0"][a, k], "W(QF)": J["Wm"][a, k, 1 + q],
+                                                      "tolerance": J["tolW"][a, k], "noncoaxiality": noncoax[a, k]},
+                                              tensors=lambda a=a, k=k, q=q: eig_tensors(a, k, q))
+                        samp = None
+                        if mode == "single" and stable_hash("%d|%s" % (seed, cid)) % 19997 == 0:
+                            samp = {"case": cid, "F": F[k], "Q": Q[q], "state": st, "W(F)": J["W0"][a, k],
+                                    "W(QF)": J["Wm"][a, k, 1 + q]}
+                        rec.case(cid, nontrivial=nontriv, outcome=outcome, steps=2, sample=samp)
+                    rec.branch("evolved probe:%s:%s:%s" % (kind_d, clsE, coax))
+
+
+def _report(rec, mdl, mode, cid, cls, gap, sig, single_ok, detail, tensors=None):
+    """Execution-mode protocol; returns the outcome label.  `tensors` (evolved internal states): the labelled symmetric
+    tensors the model hands to the eigen-solver for this case (C_e of every branch for F and QF), as a callable that is
+    only evaluated when the classification needs them; `gap` is then their smallest relative gap.  None (virgin state): C = G^T G of F, QF and FQ."""
+    evolved = tensors is not None
+    detail = dict(detail, stretch_class=cls, single_call_passes=single_ok)
+    detail["relative_gap_of_Ce" if evolved else "relative_gap_of_C"] = float(gap)
     if mode == "batched" and single_ok and gap <= 1e-6 and mdl.eigen_based:
         rec.branch("protocol:batched-fail/single-pass/near-repeated -> D11")
         _violation(rec, D11_KEY, cid, detail)
@@ -533,9 +814,11 @@ def _report(rec, mdl, mode, cid, cls, gap, sig, single_ok, detail):
         # replica of the solver's operands), so rounding decides it and the compiled batch decides it inconsistently
         from mc.ref import material_ref as R
         ties = []
-        for nm, G in (("F", detail["F"]),) + ((("QF", detail["Q"] @ detail["F"]), ("FQ", detail["F"] @ detail["Q"]))
-                                               if "Q" in detail else ()):
-            t, which, margin = R.eigen_decision_tie(G.T @ G)
+        if not evolved:
+            tensors = [(nm, G.T @ G) for nm, G in (("F", detail["F"]),) + (
+                (("QF", detail["Q"] @ detail["F"]), ("FQ", detail["F"] @ detail["Q"])) if "Q" in detail else ())]
+        for nm, A in (tensors() if evolved else tensors):
+            t, which, margin = R.eigen_decision_tie(A)
             if t:
                 ties.append("%s:%s(margin %.1e)" % (nm, which, margin))
         if ties:
@@ -546,7 +829,14 @@ def _report(rec, mdl, mode, cid, cls, gap, sig, single_ok, detail):
     rec.branch("protocol:ordinary-violation")
     # one defect -> one key: mode only distinguishes failures that exist in the compiled batch alone; the stretch class
     # and the side (QF / FQ) are in the detail, not in the key
-    key = "%s|%s|%s" % (mdl.name, "batched-only" if (mode == "batched" and single_ok) else "any-mode",
-                        "energy-not-invariant-under-rotation" if sig.startswith("not-") else sig)
+    which = "batched-only" if (mode == "batched" and single_ok) else "any-mode"
+    if evolved:
+        # a failure that exists at evolved internal states (the virgin-state product of this option was clean, otherwise the
+        # evolved exploration is not run): its own key
+        key = "%s|%s|evolved-state|%s" % (mdl.name, which, "energy-not-objective" if sig.startswith("not-") else sig)
+    else:
+        key = "%s|%s|%s" % (mdl.name, which, "energy-not-invariant-under-rotation" if sig.startswith("not-") else sig)
+        ordinary = rec.__dict__.setdefault("_c08_ordinary", {})
+        ordinary[mdl.name] = ordinary.get(mdl.name, 0) + 1
     _violation(rec, key, cid, detail)
     return "fail:" + sig
